@@ -35,4 +35,7 @@ def unwrap {α : Type} [Inhabited α] : Option α → α
 so the default is unreachable -/
 def idx {α : Type} [Inhabited α] (xs : List α) (k : Nat) : α := xs.getD k default
 
+/-- `iter.enumerate()` over a list-backed iterator: (index, element) pairs -/
+def enumerate {α : Type} (xs : List α) : List (Nat × α) := xs.zipIdx.map (fun q => (q.2, q.1))
+
 end Geo.Gen
